@@ -34,7 +34,7 @@ def hx(b):
 # ------------------------------------------------------------------ rule sets
 TAG_POOL = [b"a", b"b", b"i", b"p", b"br", b"hr", b"img", b"input", b"ul", b"li", b"div", b"span", b"h1", b"_x", b"B", b"P", b"Img"]
 PROP_POOL = [b"href", b"src", b"title", b"size", b"checked", b"disabled", b"width", b"Class", b"id", b"HREF", b"alt"]
-ENT_POOL = [b"nbsp", b"copy", b"or", b"Amp", b"x1", b"apos", b"", b"a;b", b"LT"]
+ENT_POOL = [b"nbsp", b"copy", b"or", b"Amp", b"x1", b"apos", b"", b"a;b", b"LT", b"a b", b"a<b", b"x'y", b"#x"]
 REGEXES = [b".*", b"[a-z]+", b"(http|https|ftp)://.*", b"[0-9]+(px|em|%)?", b"[a-zA-Z0-9 _.-]*", b"[^<>\"']*", b"(left|right|center)"]
 SCHEMES = [b"(http|https|ftp|mailto|news|nntp)", b"(http|https)", b"[a-z]+"]
 ENCODINGS = [b"UTF-8", b"utf8", b"ISO-8859-1", b"iso-8859-8", b"ISO-8859-6", b"windows-1255", b"cp1251", b"US-ASCII", b"koi8-r", b"latin1", b"windows-1252"]
@@ -245,7 +245,7 @@ class G:
     def entity(self):
         rs, rng = self.rs, self.rng
         if not self.p(0.6):
-            names = [b"lt", b"gt", b"amp", b"quot"] + [e for e in rs.entities if e.isalnum()]
+            names = [b"lt", b"gt", b"amp", b"quot"] + [e for e in rs.entities if e and b";" not in e]
             if rs.numeric and rng.random() < 0.4:
                 cp = rng.choice(GOOD_CODEPOINTS)
                 return rng.choice((b"&#%d;", b"&#x%x;", b"&#X%X;", b"&#x%X;")) % cp
